@@ -15,6 +15,8 @@
      1 ErrInvalidPublicKey  2 ErrMissingSessionKey  3 ErrMsgKeyMismatch
      4 base64.CorruptInputError  5 anything else (X25519 errors). *)
 From WK Require Import Base.Base Gen.Consts_C25.
+From Coq Require Export PrimInt63.
+From Coq Require Uint63.
 Open Scope N_scope.
 
 Inductive res (A : Type) : Type := Ok (a : A) | Err (e : N).
@@ -429,8 +431,8 @@ Inductive c25_op :=
 
 Record c25_case := C25Case {
   c25_ops : list c25_op;
-  c25_tabE : list (bytes * bytes * bytes);      (* ((key, block), AES-encrypt) *)
-  c25_tabD : list (bytes * bytes * bytes);      (* ((key, block), AES-decrypt) *)
+  c25_tabE : list (bytes * list (bytes * bytes));  (* (key, [(block, AES-encrypt)]) *)
+  c25_tabD : list (bytes * list (bytes * bytes));  (* (key, [(block, AES-decrypt)]) *)
   c25_tabMD5 : list (bytes * bytes);            (* (message, digest) *)
   c25_tabDH : list (bytes * bytes * option bytes) (* ((scalar, point), X25519) *)
 }.
@@ -445,6 +447,18 @@ Fixpoint lookup1 {B} (tab : list (bytes * B)) (a : bytes) (dflt : B) : B :=
   | [] => dflt
   | (a', v) :: r => if bytes_eqb a a' then v else lookup1 r a dflt
   end.
+
+Definition lookup_block (tab : list (bytes * list (bytes * bytes))) (key block : bytes) : bytes :=
+  lookup1 (lookup1 tab key []) block [].
+
+(* byte-string literal of case files: [pk len words], 7 bytes per primitive 63-bit integer,
+   little-endian (string / hex literals are two orders of magnitude slower to elaborate) *)
+Definition word_bytes (w : Uint63.int) : bytes :=
+  let z := Z.to_N (Uint63.to_Z w) in
+  [N.land z 255; N.land (N.shiftr z 8) 255; N.land (N.shiftr z 16) 255; N.land (N.shiftr z 24) 255;
+   N.land (N.shiftr z 32) 255; N.land (N.shiftr z 40) 255; N.land (N.shiftr z 48) 255].
+Definition pk (len : N) (ws : list Uint63.int) : bytes :=
+  firstn (N.to_nat len) (flat_map word_bytes ws).
 
 Definition res_eqb {A} (eqb : A -> A -> bool) (x y : res A) : bool :=
   match x, y with
@@ -521,8 +535,8 @@ Definition obs_eqb (x y : c25_op) : bool :=
 (* the primitives of a case are its oracle tables; a missing entry yields a value the
    implementation cannot have produced, so the case shows up as a mismatch *)
 Definition C25_mismatch (c : c25_case) : bool :=
-  let aesE := fun k b => lookup2 (c25_tabE c) k b [] in
-  let aesD := fun k b => lookup2 (c25_tabD c) k b [] in
+  let aesE := lookup_block (c25_tabE c) in
+  let aesD := lookup_block (c25_tabD c) in
   let md5 := fun m => lookup1 (c25_tabMD5 c) m [] in
   let dh := fun a p => lookup2 (c25_tabDH c) a p None in
   negb (forallb (fun o => obs_eqb o (model_op aesE aesD md5 dh o)) (c25_ops c)).
